@@ -14,6 +14,7 @@ RULE = '(path, document) pairs with paths generated from the document (steps hit
 
 def generate(ctx):
     r = ctx.rng
+    ctx.twins, ctx.prefixed = [], []
     ds = common.docs(ctx, ctx.scale(500, 20000), finite=False)
     fixed = ['R', 'R;B', 'R;W', 'R;B;B', 'R;W;W', 'R;I(xl0)'.replace('xl0', 'l0'), 'R;I(x0,x0,l0,S' + 'x0~l0)', 'R;I(Sl-1~l0,x-1,x99)',
              'R;Fbgt(p(C)|vu1)', 'R;B;Fbgt(p(C)|vu1)', 'R;B;Fbeq(p(C;D61)|vu1)', 'R;Fe(C;D61)', 'Pbgt(p(R;D61)|vu0)', 'Pe(R;B)',
@@ -24,7 +25,20 @@ def generate(ctx):
         paths = [common.path_text(common.gen_path(ctx, v)) for _ in range(4)] + r.sample(fixed, 4)
         for p in paths:
             m = r.choice(['all', 'all', 'first', 'array', 'mixed'])
-            ctx.add('select %s %s %s' % (e, p, m), meta=('sel', v, p))
+            plain = ctx.add('select %s %s %s' % (e, p, m), meta=('sel', v, p))
+            # the parser also accepts a path WITHOUT the leading `$` (a bare first name, `.name`, `[..]`, `?(..)`): it denotes the
+            # same items as its `$` twin (a seeded helper dropped the first step of such a path)
+            if p.startswith('R;') and r.random() < 0.5:
+                ctx.add('select %s %s %s' % (e, p[2:], m), meta=('sel', v, p))
+                ctx.count('unrooted_twins')
+                if r.random() < 0.4:
+                    op = r.choice(['get_by_path', 'get_by_path_first', 'get_by_path_array', 'path_exists'])
+                    ctx.twins.append((ctx.add('%s %s %s' % (op, e, p)).id, ctx.add('%s %s %s' % (op, e, p[2:])).id))
+            # the same selection appended to a buffer that already holds bytes: the data is prefix ++ the same items and the
+            # offsets are shifted by the length of the prefix (a seeded writer patched its entry words from the buffer start)
+            if r.random() < 0.3:
+                pre = gen.enc(r.choice(ds[:60]))
+                ctx.prefixed.append((plain.id, ctx.add('select@%s %s %s %s' % (pre.hex(), e, p, m)).id, pre))
             if r.random() < 0.3:
                 ctx.add('sel_exists %s %s' % (e, p))
                 ctx.add('sel_predicate_match %s %s' % (e, p))
@@ -129,6 +143,21 @@ def expected_by_oracle(v, p, mode):
 
 
 def judge(ctx):
+    for a, b in ctx.twins:
+        oa, ob = ctx.impl.get(a, 'missing'), ctx.impl.get(b, 'missing')
+        if oa != ob:
+            ctx.violate('a path without the leading `$` does not give what its `$` twin gives', case=[ctx.cases[int(a[1:]) - 1].line[:400], ctx.cases[int(b[1:]) - 1].line[:400]],
+                        observed=[oa[:300], ob[:300]])
+    for a, b, pre in ctx.prefixed:
+        oa, ob = ctx.impl.get(a, 'missing'), ctx.impl.get(b, 'missing')
+        ctx.count('selections_into_a_prefilled_buffer')
+        if oa.startswith('ok ') and not oa.startswith('ok ='):
+            f = oa[3:].split(' ')
+            offs = [str(int(x) + len(pre)) for x in f[1].split(',')] if len(f) > 1 and f[1] else []
+            want = 'ok ' + gen.hexarg(pre + gen.unhexarg(f[0])) + ((' ' + ','.join(offs)) if len(f) > 1 else '')
+            if ob != want:
+                ctx.violate('a selection appended to a buffer that already holds bytes is not prefix ++ the same items with shifted offsets',
+                            case=ctx.cases[int(b[1:]) - 1].line[:600], expected=want[:400], observed=ob[:400])
     for c in ctx.cases:
         if c.kind == 'malformed':
             continue
